@@ -59,10 +59,8 @@ theorem c20_names_exact (ops : Ops α) (e : Ex α) (h : NoiseFree e) :
 the final measurement): completed with the problem's names or infeasible. -/
 def CompletesAllAsWritten : Prop :=
   ∀ (e : Ex Int) (x : Params Int),
-    Done (outNames (α := Int) ⟨0, 1, (· + ·), (· - ·), (- ·), (· / ·), (decide <| · ≤ ·), (· == ·), (↑)⟩
-      (.hypercube false 1 (fun _ => []) e))
-      (step ⟨0, 1, (· + ·), (· - ·), (- ·), (· / ·), (decide <| · ≤ ·), (· == ·), (↑)⟩
-        (.hypercube false 1 (fun _ => []) e) St.zero (Trial.fresh x)).1
+    Done (outNames intOps (.hypercube false 1 (fun _ => []) e))
+      (step intOps (.hypercube false 1 (fun _ => []) e) St.zero (Trial.fresh x)).1
 
 /-- It is false: over a base that marks the point infeasible without metrics (what
 `NumpyExperimenter` does for a non-finite value) the as-written hyper-cube wrapper returns a
@@ -77,6 +75,41 @@ theorem c20_hypercube_aswritten_counterexample : ¬ CompletesAllAsWritten := by
   have := hn (by simp [step, evaluate, setParams, Trial.fresh, Trial.completeWith, Trial.complete])
   rw [hms] at this
   simp [outNames, Problem.metricNames, names] at this
+
+/-- FULL STATEMENT "a point the wrapped experimenter marks infeasible is infeasible for the
+wrapper", for the three wrappers that copy results back by hand, as a function of the variant -/
+def KeepsInfeasible (wrap : Ex Int → Ex Int) : Prop :=
+  (outcome intOps infBase St.zero []).2 = true → (outcome intOps (wrap infBase) St.zero []).2 = true
+
+/-- the repaired variants keep it … -/
+theorem c20_keeps_infeasible :
+    KeepsInfeasible (fun e => .hypercube true 1 (fun _ => []) e) ∧
+      KeepsInfeasible (fun e => .switch "switch" "m" (fun _ => 0) true (.cons "a" e .nil)) ∧
+      KeepsInfeasible (fun e => .multi true (.cons "a" e .nil)) := by
+  refine ⟨fun _ => ?_, fun _ => ?_, fun _ => ?_⟩ <;> decide
+
+/-- … the code as written at the pinned commit drops it (each is replayed on the real code by
+the check to identify the variant of the current tree) -/
+theorem c20_aswritten_drops_infeasible :
+    ¬ KeepsInfeasible (fun e => .hypercube false 1 (fun _ => []) e) ∧
+      ¬ KeepsInfeasible (fun e => .switch "switch" "m" (fun _ => 0) false (.cons "a" e .nil)) ∧
+      ¬ KeepsInfeasible (fun e => .multi false (.cons "a" e .nil)) := by
+  refine ⟨fun h => ?_, fun h => ?_, fun h => ?_⟩ <;> exact absurd (h (by decide)) (by decide)
+
+/-- in general: the repaired switch reports the point infeasible when the selected child does -/
+theorem c20_switch_keeps_infeasible (ops : Ops α) (sw metric : String) (toIdx : Option (PVal α) → Nat)
+    (kids : ExList α) (st : St) (t : Trial α) (e : Ex α)
+    (hk : kidAt kids (toIdx (lookupS sw t.params)) = some e)
+    (hfin : (step ops e (st.kids.getD (toIdx (lookupS sw t.params)) St.zero) t).1.final ≠ none)
+    (hinf : (step ops e (st.kids.getD (toIdx (lookupS sw t.params)) St.zero) t).1.infeasible = true) :
+    (step ops (.switch sw metric toIdx true kids) st t).1.infeasible = true := by
+  rw [step_switch, hk]
+  simp only [switchComplete]
+  cases hf : (step ops e (st.kids.getD (toIdx (lookupS sw t.params)) St.zero) t).1.final with
+  | none => exact absurd hf hfin
+  | some ms =>
+    simp only
+    cases lookupS (objName ops e) ms <;> simp only [Trial.complete, Bool.true_and, hinf, Bool.or_true]
 
 /-- non-vacuity: a well-formed three-level stacking with an admissible point -/
 example : WF (fieldOps : Ops Rat)
